@@ -188,6 +188,11 @@ def Send.closedFirst (s : Send) : Bool := Gen.writeClosedFirst && !s.isWritable
 def Send.stoppedFirst (s : Send) : Option Nat :=
   if Gen.writeStoppedFirst && s.isWritable then s.stopReason else none
 
+/-- `let finished = matches!(stream.state, SendState::DataSent { finish_acked: false })` in the body of
+    `retransmit_all_for_0rtt`: the FIN of such a stream is queued again (it may have gone out in 0-RTT; an
+    empty stream has no data to carry it) -/
+def Send.rtx0Finished (s : Send) : Bool := Gen.rtx0RequeuesFin && s.state == .dataSent false
+
 /-- `Send::finish` -/
 def Send.finish (s : Send) : Except WriteErr Send :=
   match s.stopReason with
